@@ -108,7 +108,9 @@ PROPS = {
     ),
     "C14": dict(
         modules=["Fuota.Props.C14", "Fuota.Lemmas.Crc", "Fuota.Lemmas.CrcLoop"],
-        suites=[dict(name="d7", cfg="matrix"), dict(name="d7", cfg="naive", thorough_only=True)],
+        # the read log (how the bytes are fetched) is compared but is not part of the property's projection:
+        # a difference confined to it is recorded as drift_outside_projection
+        suites=[dict(name="d7", cfg="matrix", strip=r" reads=\S+"), dict(name="d7", cfg="naive", thorough_only=True, strip=r" reads=\S+")],
         rule="query = one validation call on a crafted flash (is_valid_firmware / validate_firmware_slot / "
              "check_crc_from_index), one exhaustive single-bit sweep of a slot's data bytes (flipall: every bit of the "
              "CRC word, signature, covered bytes and a few bytes beyond), one check_and_mark_done at the end of a real "
